@@ -751,7 +751,12 @@ func (sc *scenario) deliverLoop(stopped chan struct{}) {
 				}
 			default:
 				sc.noteGenuine(item.orig)
-				sc.genuine = append(sc.genuine, item.orig)
+				if item.fate == "hsblock" {
+					// on this path the part behind the Initial packets never reaches the client, not even as a replay
+					sc.genuine = append(sc.genuine, item.data)
+				} else {
+					sc.genuine = append(sc.genuine, item.orig)
+				}
 				intact := item.fate == "ok" || item.fate == "dup" || item.fate == "delay"
 				sc.deliver(fmt.Sprintf("g%d:%s", item.gidx, item.fate), item.data, item.orig, intact)
 				sc.nGenuine++
